@@ -478,6 +478,9 @@ def _landing_fault(c, inst, a, rhs, oracle, events, cb, t0, tf, adt, sgn, dense,
         c.case()
         T = list(a.t)
         c.check("c12.landing.raises_FailedIntegration", st == "exc" and isinstance(r, FailedIntegration), info=repr(r)[:120])
+        from .common import InjectedFault
+        c.check("c12.landing.failure_carries_the_original_cause", st == "exc" and isinstance(getattr(r, "__cause__", None), InjectedFault),
+                info=dict(cause=repr(getattr(r, "__cause__", None))[:120], cause_of_cause=repr(getattr(getattr(r, "__cause__", None), "__cause__", None))[:120]))
         c.check("c12.landing.status_reports_failure", not a.success)
         c.check("c12.landing.rows_paired_and_monotone", len(a.t) == len(a.y) and c.all([c.eq(T[0], t0)] + [c.lt(0, sgn * (T[i + 1] - T[i])) for i in range(len(T) - 1)]))
         c.check("c12.landing.recorded_events_lie_in_recorded_range", c.all([c.le(0, sgn * (T[-1] - e.t) + 64 * spans.EPS64 * 64, 64) for e in a.events]),
